@@ -4,7 +4,7 @@ import numpy as np
 from harness.driver import call_impl, cz, cnat, cgrid, chist, cres, copt
 
 ID = 'C11'
-COQ_IMPORTS = ('From CPL Require Import Model.Base Model.Rules Model.Engine Model.Evolve2D Model.Life Corr.C11.\n'
+COQ_IMPORTS = ('From CPL Require Import Model.Base Model.Rules Model.Engine Model.Evolve2D Model.Life Model.LifePatterns Corr.C11.\n'
                'Open Scope Z_scope.')
 NONTRIVIAL_RULE = ('rule cases: the call returned (all 512 binary blocks, plain ndarray and MaskedArray with an '
                    'all-False mask); evolve/pattern cases: the call returned, the start grid has a live cell and at '
@@ -12,13 +12,17 @@ NONTRIVIAL_RULE = ('rule cases: the call returned (all 512 binary blocks, plain 
 EXHAUSTIVE = {'quick': True, 'thorough': True}
 NOTES = ['the 512 binary neighbourhoods are enumerated completely, in both forms, in both tiers',
          'every placement (a, b) in [0,R) x [0,C) of the glider on 6x6, 7x7, 8x8 (quick) / all R x C in 5..8 (thorough)',
+         'EVERY binary grid of every shape up to 3x3 (682 grids) in all three memoize modes, in both tiers',
+         'all 16 gliders (4 directions x 4 phases) at every placement of the 5x5 torus; beehive, loaf, boat, tub at every '
+         'placement of the torus with exactly the one-cell halo',
          'the model side is the memoize=False engine for all three memoize modes: the result must not depend on the mode',
          'sequence cases: 2-4 evolve2d calls in one process with the same cpl.game_of_life_rule object, mixing '
          "neighbourhood='von Neumann' / 'Moore' and the memoize modes; every Moore call is compared (model and np.roll "
          'oracle), the von Neumann calls are modelled (masked sum) but not compared: the property does not speak about them',
          'sequence/other_radius cases come first in the process: evolve2d with r = 2 or r = 0 and an affine rule on a shape, '
          'then Life (r = 1) on the same shape; only the Life calls are compared']
-ASSUMPTIONS = ['grids hold 0/1 integers (the property is stated for binary neighbourhoods)',
+ASSUMPTIONS = ['grids hold the states 0 and 1 (the property is stated for binary neighbourhoods), in int64 and, in the '
+               'evolve/dtype buckets, bool / uint8 / int8 / float32 / float64 arrays',
                'r = 1, Moore neighbourhood (the default evolve2d arguments used with game_of_life_rule)',
                'a MaskedArray neighbourhood is exercised with an all-False mask only']
 
@@ -28,6 +32,35 @@ PATS = {
     'block': [(0, 0), (0, 1), (1, 0), (1, 1)],
     'blinker': [(0, 0), (0, 1), (0, 2)],
 }
+STILLS = {   # name: (cells, rows, cols of the bounding box)
+    'beehive': ([(0, 1), (0, 2), (1, 0), (1, 3), (2, 1), (2, 2)], 3, 4),
+    'loaf': ([(0, 1), (0, 2), (1, 0), (1, 3), (2, 1), (2, 3), (3, 2)], 4, 4),
+    'boat': ([(0, 0), (0, 1), (1, 0), (1, 2), (2, 1)], 3, 3),
+    'tub': ([(0, 1), (1, 0), (1, 2), (2, 1)], 3, 3),
+}
+PATS['blinker_v'] = [(0, 0), (1, 0), (2, 0)]
+_GPH = [[(0, 1), (1, 2), (2, 0), (2, 1), (2, 2)], [(0, 0), (0, 2), (1, 1), (1, 2), (2, 1)],
+        [(0, 2), (1, 0), (1, 2), (2, 1), (2, 2)], [(0, 0), (1, 1), (1, 2), (2, 0), (2, 1)]]
+GDIR = [(1, 1), (1, -1), (-1, -1), (-1, 1)]
+DTYPES = ['bool', 'uint8', 'int8', 'float32', 'float64']
+
+
+def gl(d, k):
+    """the glider of direction d in phase k: d quarter turns (u, v) -> (v, 2 - u) of phase k"""
+    cells = _GPH[k]
+    for _ in range(d):
+        cells = [(v, 2 - u) for (u, v) in cells]
+    return cells
+
+
+def _cells(c):
+    if c['pat'] == 'still':
+        return STILLS[c['name']][0]
+    if c['pat'] == 'glider_dir':
+        return gl(c['d'], c['k'])
+    return PATS[c['pat']]
+
+
 EXTRA_PATS = {   # only placed into random-evolution cases
     'toad': [(0, 1), (0, 2), (0, 3), (1, 0), (1, 1), (1, 2)],
     'beacon': [(0, 0), (0, 1), (1, 0), (2, 3), (3, 2), (3, 3)],
@@ -105,6 +138,45 @@ def generate(rng, tier):
             for b in range(C):
                 yield {'kind': 'pattern/blinker', 'op': 'pattern', 'pat': 'blinker', 'R': R, 'C': C, 'a': a, 'b': b,
                        'T': rng.choice([3, 3, 4, 5]), 'memo': (a + 2 * b) % 3}
+    # 5b. still lifes (every placement on a torus with exactly the halo, and on a larger one)
+    for name, (cells, p, q) in sorted(STILLS.items()):
+        for (R, C) in [(p + 2, q + 2), (p + 3, q + 4)] + ([(p + 2, q + 5), (9, 9)] if thorough else []):
+            for a in range(R):
+                for b in range(C):
+                    yield {'kind': 'pattern/still/' + name, 'op': 'pattern', 'pat': 'still', 'name': name, 'R': R, 'C': C,
+                           'a': a, 'b': b, 'T': rng.randint(2, 4), 'memo': (a + b) % 3}
+    # 5c. the blinker started vertically
+    for (R, C) in [(5, 5), (6, 5)]:
+        for a in range(R):
+            for b in range(C):
+                yield {'kind': 'pattern/blinker-vertical', 'op': 'pattern', 'pat': 'blinker_v', 'R': R, 'C': C, 'a': a,
+                       'b': b, 'T': rng.choice([3, 3, 4, 5]), 'memo': (2 * a + b) % 3}
+    # 5d. the glider in all four directions and all four phases: every placement on 5x5, random ones on larger tori
+    for d in range(4):
+        for k in range(4):
+            for a in range(5):
+                for b in range(5):
+                    for memo in ((0, 1, 2) if thorough else ((a + b + d + k) % 3,)):
+                        yield {'kind': 'pattern/glider-dir%d' % d, 'op': 'pattern', 'pat': 'glider_dir', 'd': d, 'k': k,
+                               'R': 5, 'C': 5, 'a': a, 'b': b, 'T': 5, 'memo': memo}
+            for i in range(12 if thorough else 3):
+                R, C = rng.randint(5, 10), rng.randint(5, 10)
+                yield {'kind': 'pattern/glider-dir%d' % d, 'op': 'pattern', 'pat': 'glider_dir', 'd': d, 'k': k,
+                       'R': R, 'C': C, 'a': rng.randint(-R, 2 * R), 'b': rng.randint(-C, 2 * C), 'T': 5, 'memo': i % 3}
+    # 5e. other dtypes of the automaton (the states are still 0 and 1)
+    for dt in DTYPES:
+        for i in range(200 if thorough else 40):
+            R, C = rng.randint(1, 8), rng.randint(1, 8)
+            yield {'kind': 'evolve/dtype/' + dt, 'op': 'evolve', 'hist': [_rand_grid(rng, R, C)], 'T': rng.randint(2, 4),
+                   'memo': i % 3, 'dtype': dt}
+    # 5f. EVERY binary grid of every shape up to 3 x 3, in every memoize mode
+    for R in range(1, 4):
+        for C in range(1, 4):
+            for v in range(2 ** (R * C)):
+                g = [[(v >> (i * C + j)) & 1 for j in range(C)] for i in range(R)]
+                for memo in (0, 1, 2):
+                    yield {'kind': 'evolve/all-grids-%dx%d' % (R, C), 'op': 'evolve', 'hist': [g],
+                           'T': 2 + (v + memo) % 2, 'memo': memo}
     # 6. call sequences in one process, one rule object (state kept between calls must not leak)
     for c in _sequences(rng, 600 if thorough else 150):
         yield c
@@ -177,8 +249,17 @@ def _sequences(rng, n):
 
 def _start(c):
     if c['op'] == 'pattern':
-        return place(c['R'], c['C'], c['a'], c['b'], PATS[c['pat']])
+        return place(c['R'], c['C'], c['a'], c['b'], _cells(c))
     return None
+
+
+def _ints(out):
+    """the returned array as nested lists of Python ints (bool / float dtypes hold exactly 0 and 1)"""
+    a = np.asarray(out)
+    b = a.astype(np.int64)
+    if not (a == b).all():
+        raise ValueError('non-integral state')
+    return b.tolist()
 
 
 def run_impl(c):
@@ -210,9 +291,9 @@ def run_impl(c):
             out.append(list(call_impl(lambda: cpl.evolve2d(h, timesteps=call['T'], apply_rule=rule, neighbourhood=nb,
                                                            memoize=MEMO[call['memo']]).tolist())))
         return out
-    hist = np.array(c['hist'] if op == 'evolve' else [_start(c)])
-    r = call_impl(lambda: cpl.evolve2d(hist, timesteps=c['T'], apply_rule=cpl.game_of_life_rule,
-                                       memoize=MEMO[c['memo']]).tolist())
+    hist = np.array(c['hist'] if op == 'evolve' else [_start(c)], dtype=c.get('dtype'))
+    r = call_impl(lambda: _ints(cpl.evolve2d(hist, timesteps=c['T'], apply_rule=cpl.game_of_life_rule,
+                                             memoize=MEMO[c['memo']])))
     return list(r)
 
 
@@ -230,7 +311,12 @@ def to_coq(c, obs):
             for call, o in zip(c['calls'], obs) if 'rule' not in call)
     if op == 'evolve':
         return '(CEvolve %s %s %s %s)' % (chist(c['hist']), cnat(c['T']), cnat(c['memo']), cres(obs, chist))
-    pat = {'glider': 'PGlider', 'block': 'PBlock', 'blinker': 'PBlinker'}[c['pat']]
+    if c['pat'] == 'still':
+        pat = '(PStill [%s])' % '; '.join('(%d, %d)' % uv for uv in STILLS[c['name']][0])
+    elif c['pat'] == 'glider_dir':
+        pat = '(PGliderDir %s %s)' % (cnat(c['d']), cnat(c['k']))
+    else:
+        pat = {'glider': 'PGlider', 'block': 'PBlock', 'blinker': 'PBlinker', 'blinker_v': 'PBlinkerV'}[c['pat']]
     return '(CPattern %s %s %s %s %s %s %s %s %s)' % (pat, cnat(c['R']), cnat(c['C']), cz(c['a']), cz(c['b']),
                                                       cgrid(_start(c)), cnat(c['T']), cnat(c['memo']),
                                                       cres(obs, chist))
@@ -297,12 +383,18 @@ def oracle(c, obs):
         k = c['T'] - 1
         if c['pat'] == 'glider' and k == 4 and not (last == np.roll(g0, (1, 1), axis=(0, 1))).all():
             return 'after four steps the glider is not the start grid shifted by (1, 1)'
-        if c['pat'] == 'block' and not (last == g0).all():
-            return 'the block changed'
-        if c['pat'] == 'blinker' and k % 2 == 0 and not (last == g0).all():
+        if c['pat'] in ('block', 'still') and not (last == g0).all():
+            return 'the still life changed'
+        if c['pat'] in ('blinker', 'blinker_v') and k % 2 == 0 and not (last == g0).all():
             return 'the blinker did not return after an even number of steps'
-        if c['pat'] == 'blinker' and k % 2 == 1 and (last == g0).all():
+        if c['pat'] in ('blinker', 'blinker_v') and k % 2 == 1 and (last == g0).all():
             return 'the blinker did not move after an odd number of steps'
+        if c['pat'] == 'glider_dir' and k == 4:
+            if not (last == np.roll(g0, GDIR[c['d']], axis=(0, 1))).all():
+                return 'after four steps the glider of direction %d is not the start grid shifted by %r' % (
+                    c['d'], GDIR[c['d']])
+            if (last == g0).all():
+                return 'the glider did not move'
     return None
 
 
